@@ -789,7 +789,9 @@ func (e *Engine) runConcurrent() {
 			close(p.resume)
 			continue
 		}
-		poolBusy := len(e.inflight) > 0
+		// On SQL stores a task that is running but neither parked nor finished is waiting for the pool's only
+		// connection; database/sql picks among several waiters at random, so at most one may wait (see DESIGN 3.3).
+		poolBusy := len(e.inflight) > 0 && e.db != nil
 		var elig []string
 		for _, k := range keys {
 			t := taskOf(k)
@@ -800,6 +802,12 @@ func (e *Engine) runConcurrent() {
 		}
 		if poolBusy {
 			e.stats.Probes["waiter_blocked_in_pool"]++
+		}
+		if len(elig) == 0 && len(keys) > 0 {
+			// the blocked task is not waiting for the connection after all (it waits for another task, e.g. behind a
+			// lock or a coalesced call): let the parked tasks go on rather than call this a wedge
+			elig = keys
+			e.stats.Probes["pool_rule_relaxed"]++
 		}
 		if len(elig) == 0 {
 			// nothing can be released: let simulated time pass; if that does not help, the run is wedged
